@@ -154,6 +154,9 @@ type runawayPanic struct{}
 
 // Host is the harness state attached to one LState.
 type Host struct {
+	keptErr             *lua.ApiError
+	keptObj             lua.LValue
+	keptText            string
 	keepOldContextAlive bool
 	// Source: the program text, for entry style 6 (DoString)
 	Source        string
@@ -316,6 +319,25 @@ func NewHost(o Options) *Host {
 }
 
 func (h *Host) Close() { h.L.Close() }
+
+// KeptErrorChanged reports whether the error value an earlier protected entry returned to Go has been modified since
+// (its Object replaced or its text changed) by what ran on the state afterwards.
+func (h *Host) KeptErrorChanged() string {
+	if h.keptErr == nil {
+		return ""
+	}
+	if h.keptErr.Object != h.keptObj || h.keptErr.Error() != h.keptText {
+		return fmt.Sprintf("the error returned by the first call read %q (object %v); after a later, contained error on the same state it reads %q (object %v)", firstLineOf(h.keptText), h.keptObj, firstLineOf(h.keptErr.Error()), h.keptErr.Object)
+	}
+	return ""
+}
+
+func firstLineOf(s string) string {
+	if i := strings.Index(s, "\n"); i >= 0 {
+		return s[:i]
+	}
+	return s
+}
 
 func (h *Host) onStep(L *lua.LState) {
 	h.Steps++
@@ -685,6 +707,10 @@ func (h *Host) RunProto(p *lua.FunctionProto) (out Outcome) {
 		}
 	}
 	if err != nil {
+		if ae, ok := err.(*lua.ApiError); ok {
+			// the error value belongs to the Go caller from now on: later errors on the same state must not change it
+			h.keptErr, h.keptObj, h.keptText = ae, ae.Object, err.Error()
+		}
 		out.RawError = err.Error()
 		if ae, ok := err.(*lua.ApiError); ok && ae.Object != nil && ae.Object != lua.LNil {
 			out.TopError = h.Render(ae.Object)
